@@ -40,11 +40,12 @@ Definition blen (s : bytes) : N := N.of_nat (length s).
 Definition is_ws (c : N) : bool :=
   ((9 <=? c) && (c <=? 13)) || ((28 <=? c) && (c <=? 32)) || (c =? 133) || (c =? 160).
 
+(* [cur] is the current word, reversed; rev_append cur [] = rev cur in linear time *)
 Fixpoint words_go (s : bytes) (cur : bytes) : list bytes :=
   match s with
-  | [] => match cur with [] => [] | _ => [rev cur] end
+  | [] => match cur with [] => [] | _ => [rev_append cur []] end
   | c :: r =>
-      if is_ws c then match cur with [] => words_go r [] | _ => rev cur :: words_go r [] end
+      if is_ws c then match cur with [] => words_go r [] | _ => rev_append cur [] :: words_go r [] end
       else words_go r (c :: cur)
   end.
 Definition words (s : bytes) : list bytes := words_go s [].
@@ -162,11 +163,12 @@ Definition parse_head (eof : bool) (data : bytes) : head :=
   end.
 
 (* ---------- vinegar's part ---------- *)
-(* a request handler as far as dispatch is concerned: prepare_context and can_handle never raise
-   and together are a predicate on the path; handle does what [h_act] says *)
-Record hspec := { h_pred : bytes -> bool; h_act : hact }.
+(* a request handler as far as dispatch is concerned: prepare_context and can_handle together are a
+   predicate on the path; [h_boom] says for which paths prepare_context raises (constantly false for
+   the repository's handlers; a scripted faulty handler uses it); handle does what [h_act] says *)
+Record hspec := { h_pred : bytes -> bool; h_boom : bytes -> bool; h_act : hact }.
 Definition to_handler (path : bytes) (h : hspec) : handler :=
-  {| prep_raises := false; can_raises := false; can := h_pred h path; act := h_act h |}.
+  {| prep_raises := h_boom h path; can_raises := false; can := h_pred h path; act := h_act h |}.
 
 Definition act_raises (a : hact) : bool :=
   match a with
